@@ -194,7 +194,7 @@ def satFields (c : Cfg) : Fields → Obj → VFields → Bool
     match vs with
     | .cons n v vs' =>
       n == name
-      && fieldSat c name tag t.isSlice (derefKind t) m v (fun j v => satTy c.nest t j v) (fun v => satAbsent c t v)
+      && fieldSat c name tag t.isSlice (derefKind t) m v (fun j v => satTy (c.nestIn m) t j v) (fun v => satAbsent c t v)
            (fun d v => satDefault t d v) (fun v => isZero t v)
       && satFields c rest m vs'
     | .nil => false
@@ -339,7 +339,7 @@ def okAbsent (c : Cfg) : Ty → Bool
 def okFields (c : Cfg) : Fields → Obj → Bool
   | .nil, _ => true
   | .cons name tag t rest, m =>
-    fieldOK c name tag t.isSlice m (fun fs r opts j => okTy c.nest fs r opts t j) (okAbsent c t)
+    fieldOK c name tag t.isSlice m (fun fs r opts j => okTy (c.nestIn m) fs r opts t j) (okAbsent c t)
       (fun d => match defaultVal c.repaired t d with | .ok _ => true | .error _ => false)
     && okFields c rest m
 end
